@@ -14,6 +14,7 @@ FLAVOUR = {
    B. an ARGUMENT-TYPE or API-VARIANT slip: the public API accepts several forms (str / bytes / bytearray / memoryview, str / os.PathLike, list / tuple / generator / mapping, keyword / positional, subclass instances, None vs missing vs empty, int vs numeric string, already-encoded vs text) and one legal form is now handled wrongly while the common form keeps working.
    C. a PERFORMANCE-motivated rewrite: caching (functools.lru_cache, a dict, precomputed attributes), a fast path / early exit, a precompiled or 'simplified' regular expression, replacing a loop by slicing/join/str methods, avoiding a copy - correct for common inputs, wrong for some specific legal ones.
  Ordinary everyday use must keep working - do NOT make a change that the first simple request would expose.""",
+ 10: """This round is about CLAUSE COVERAGE. Read the property statement and the 'quantified over' line phrase by phrase. Split them into their individual claims (each 'and', each parenthesis, each listed case, each dimension of the quantifier is a claim of its own). Look at the list of earlier ideas below and judge which claims they touch LEAST. Then make three changes that break three DIFFERENT such neglected claims - quote the exact phrase each change violates at the top of its section in NOTES.md. Everything else the statement says must keep holding, and ordinary everyday use must keep working - do NOT make a change that the first simple request would expose.""",
  9: """This round: make one change of each of these three kinds:
    A. NEAR-EQUIVALENT SWAP: replace a standard-library (or built-in) call by a close relative that behaves the same on ordinary input and differently on some legal input the property covers - urlsplit/urlparse, quote/quote_plus/unquote_to_bytes, parse_qsl options, parsedate_to_datetime/parsedate/mktime_tz, formatdate flags, isdigit/isdecimal/isnumeric, int()/float()/Decimal, str.split/partition/rsplit, re.match/fullmatch/search, sorted/ list.sort keys, bytes.find/index, os.path.normpath/abspath/realpath, mimetypes.guess_type variants, json dumps/loads options, http.cookies helpers, base64/hashlib variants.
    B. ORDERING / TIME-OF-CHECK slip: two steps are swapped or a check moved - state updated after instead of before an await / a send / a yield (or the reverse), a length or header computed before the data it describes is final, a file stat taken at a different moment than the open, validation after use, cleanup before the last use, an early return that skips a later bookkeeping step.
